@@ -67,6 +67,7 @@ func runC14(r *fw.Run, p *fw.Program) {
 	c14Feed(cx)
 	c14Flow(cx)
 	c14JQLit(cx)
+	c14XMLNS(cx)
 }
 
 // ---------------------------------------------------------------------------
